@@ -122,11 +122,26 @@ func c12() int {
 	}
 	enumStrings(sep(c12Tokens), tokLen, func(s string) { texts = append(texts, s) })
 	nToks := len(texts) - nBytes
+	// (ii-b) what sits at the end of a line, under every line-end convention: positions reported by the lexer count the
+	// bytes of the text as given, error messages are rendered from a normalised copy
+	for _, prefix := range []string{"", "print ", "send ", "fail ", "vars{\n account ", "set_tx_meta(\"k\", ", "send [X 1] (\n source = ", "send [X 1] (\r\n source = @a\r\n destination = "} {
+		for _, atom := range []string{"", "$", "@", "[", "\"", "1/", "x", "$v", "@a", "7", "[X", "%", "*", "é"} {
+			for _, eol := range []string{"\n", "\r\n", "\r", "", " \r\n", "\t\n", "\t\r\n", "\r\n\r\n", "\n\r"} {
+				for _, suffix := range []string{"", "}", ")"} {
+					texts = append(texts, prefix+atom+eol+suffix)
+				}
+			}
+		}
+	}
+	nLineEnds := len(texts) - nBytes - nToks
 	evid.ParallelFor(len(texts), workers(), func(w, i int) {
 		wd.begin(w, texts[i])
 		fam := "byte-string"
 		if i >= nBytes {
 			fam = "token-string"
+		}
+		if i >= nBytes+nToks {
+			fam = "line-end"
 		}
 		c12Text(rep, texts[i], st, fam)
 		wd.end(w)
@@ -194,6 +209,7 @@ func c12() int {
 	cov := st.coverage(sp, "(i) every byte string of length <= "+fmt.Sprint(byteLen)+" over a 27-byte alphabet; (ii) every token string of length <= "+fmt.Sprint(tokLen)+" over "+fmt.Sprint(len(c12Tokens))+" lexer-token representatives; (iii) "+nsRule+"; plus the enumerated family of meaningless-but-grammatical programs x valid/missing/extraneous/ill-typed variable maps x store contents. Every (program,input) is run twice (forward, and in reverse order on a fresh compile) and the two observations compared. Non-trivial = got past compilation")
 	cov["byte_strings"] = nBytes
 	cov["token_strings"] = nToks
+	cov["line_end_texts"] = nLineEnds
 	cov["odd_programs"] = len(odd)
 	cov["near_duplicate_cache_runs"] = nearRuns
 	rep.Assume = []string{"termination is checked by a 180 s per-case watchdog (no case comes near it); the VM has no backward jumps"}
